@@ -45,9 +45,8 @@ func (w *c02World) fail(f string, a ...any) {
 	w.c.Fatalf(f, a...)
 }
 
-// c08Known: vt.Known, plus finding ids the lead has not yet entered into
-// known_findings.json but whose guard must already be active (VERIF_PENDING_KNOWN, set
-// through the test's env in bin/props.d/C02.py and C08.py until the lead lists them).
+// c08Known: the finding is listed as open in known_findings.json (vt.Known) and its
+// witness is not the test that is running.
 func c08Known(id string) bool {
 	if id == c02GuardOff {
 		return false // the witness of this finding is running: let the violation surface
@@ -62,15 +61,7 @@ func c08Known(id string) bool {
 		}
 		return false
 	}
-	if vt.Known(id) {
-		return true
-	}
-	for _, p := range strings.Split(os.Getenv("VERIF_PENDING_KNOWN"), ",") {
-		if strings.TrimSpace(p) == id {
-			return true
-		}
-	}
-	return false
+	return vt.Known(id)
 }
 
 // ------------------------------------------------------------------ knowledge ledger
@@ -186,20 +177,13 @@ func (w *c02World) onCall(cl *cloudctl.Cloud, c *cloudctl.Call) {
 			mode = aliyunClient.ENITrafficModeRDMA
 		}
 		counted, same := 0, 0
-		perKind := map[string]int{}
 		for _, k := range w.k {
 			if !k.counted {
 				continue
 			}
 			counted++
-			perKind[k.typ+"/"+k.mode]++
 			if k.typ == c.Type && (k.mode == mode || k.mode == "") {
 				same++
-			}
-		}
-		for _, f := range w.spec.Flavor {
-			if perKind[string(f.NetworkInterfaceType)+"/"+string(f.NetworkInterfaceTrafficMode)] > f.Count {
-				kind = "surplus" // some kind already exceeds its share (listed finding C08-negative-slot-count)
 			}
 		}
 		if counted+1 > n.Adapters-1 {
@@ -209,9 +193,7 @@ func (w *c02World) onCall(cl *cloudctl.Cloud, c *cloudctl.Call) {
 			bad("new interface requested while the node has %d by everything the controller was told; the flavor admits %d in total", counted, w.flavorTotal())
 		}
 		if same+1 > w.flavor(c.Type, mode) {
-			if kind != "surplus" {
-				kind = "perkind"
-			}
+			kind = "perkind"
 			bad("new %s/%s interface requested while the node has %d of that kind; the flavor admits %d", c.Type, mode, same, w.flavor(c.Type, mode))
 		}
 		if counted+1 == min(n.Adapters-1, w.flavorTotal()) || same+1 == w.flavor(c.Type, mode) {
@@ -368,12 +350,6 @@ func (w *c02World) step(tag string) c02StepResult {
 	enough := w.c08EnoughIdle(prev, pods)
 	lost := w.c08KnowledgeLost(prev, pods)
 	lostEligible := w.writeLost && w.failedWrites == 0 // judged on the passes before this one
-	emptyMode := false
-	for _, e := range prev.Status.NetworkInterfaces {
-		if e.NetworkInterfaceTrafficMode == "" {
-			emptyMode = true
-		}
-	}
 	sc0 := false
 	if v, ok := w.rec.cache.Load(c02NodeName); ok {
 		sc0 = v.(*NodeStatus).StatusChanged.Load()
@@ -406,22 +382,6 @@ func (w *c02World) step(tag string) c02StepResult {
 			if e := prev.Status.NetworkInterfaces[c.ENI]; e != nil {
 				if _, ok := e.IPv4[""]; ok {
 					w.efloCollision = true
-				}
-			}
-		}
-	}
-	for i := range res.calls {
-		c := &res.calls[i]
-		if c.Kind != cloudctl.KDescribe || c.Err != "" || len(c.IDs) > 0 {
-			continue
-		}
-		for _, t := range c.Told {
-			if e := prev.Status.NetworkInterfaces[t.ID]; e != nil {
-				if len(e.IPv4) == 0 && len(t.V4) > 0 {
-					w.nilMapHit[t.ID+"/4"] = true
-				}
-				if len(e.IPv6) == 0 && len(t.V6) > 0 {
-					w.nilMapHit[t.ID+"/6"] = true
 				}
 			}
 		}
@@ -493,8 +453,6 @@ func (w *c02World) step(tag string) c02StepResult {
 			switch {
 			case w.writeLost && w.failedWrites == 0 && c08Known("C08-lost-write-no-resync"):
 				w.c.Label("known:C08-lost-write-no-resync")
-			case len(w.nilMapHit) > 0 && c08Known("C08-sync-merge-nil-map"):
-				w.c.Label("known:C08-sync-merge-nil-map")
 			case strings.Contains(msg, "name:") && (c08AnyEmptyKey(cur) || w.efloCollision) && c08Known("C08-eflo-partial-key-collision"):
 				w.c.Label("known:C08-eflo-partial-key-collision")
 			case w.s.Mode == "C08":
@@ -511,24 +469,11 @@ func (w *c02World) step(tag string) c02StepResult {
 	var hard []string
 	for _, m := range mon {
 		switch {
-		case strings.HasPrefix(m.kind, "assign:") && (c08NilFamily(prev, m.kind) || w.c08NilMapHit(m.kind)) && c08Known("C08-sync-merge-nil-map"):
-			// the record holds no address map of that family for the interface, so the
-			// addresses the full sync was told about were dropped by mergeIPMap
-			w.c.Label("known:C08-sync-merge-nil-map")
-			w.trace("    (known C08-sync-merge-nil-map: %s)", m.msg)
 		case strings.HasPrefix(m.kind, "assign:") && c08EmptyKey(prev, m.kind) && c08Known("C08-eflo-partial-key-collision"):
 			// EFLO: half-created addresses are recorded under the empty address key, a second
 			// one replaces nothing and is forgotten
 			w.c.Label("known:C08-eflo-partial-key-collision")
 			w.trace("    (known C08-eflo-partial-key-collision: %s)", m.msg)
-		case m.kind == "surplus" && c08Known("C08-negative-slot-count"):
-			// more interfaces of one kind than the flavor admits make getEniOptions hand
-			// the negative remainder to the next kind
-			w.c.Label("known:C08-negative-slot-count")
-			w.trace("    (known C08-negative-slot-count: %s)", m.msg)
-		case m.kind == "perkind" && emptyMode && c08Known("C08-rollback-record-lacks-mode"):
-			w.c.Label("known:C08-rollback-record-lacks-mode")
-			w.trace("    (known C08-rollback-record-lacks-mode: %s)", m.msg)
 		case lost != "" && lostEligible && c08Known("C08-lost-write-no-resync"):
 			// the controller was told about resources a failed record write then lost, and
 			// it did not resynchronise before asking for more
@@ -546,18 +491,9 @@ func (w *c02World) step(tag string) c02StepResult {
 	}
 
 	// C02: invariants on the persisted record
-	msg, facts := c02CheckRecord(prev.Status.NetworkInterfaces, cur.Status.NetworkInterfaces, pods, w.everPod, w.tainted, w.s.Node.V4 && w.s.Node.V6, w.s.Node.ERDMA)
+	msg, facts := c02CheckRecord(prev.Status.NetworkInterfaces, cur.Status.NetworkInterfaces, pods, w.everPod, w.s.Node.ERDMA)
 	for f := range facts {
-		switch {
-		case strings.HasPrefix(f, "taint:"):
-			w.tainted[strings.TrimPrefix(f, "taint:")] = true
-		case strings.HasPrefix(f, "class:"):
-			if c08Known(strings.TrimPrefix(f, "class:")) {
-				w.c.Label("known:" + strings.TrimPrefix(f, "class:"))
-			}
-		default:
-			w.c.Label("c02:" + f)
-		}
+		w.c.Label("c02:" + f)
 	}
 	if facts["takeover"] {
 		w.nt = true
@@ -610,31 +546,6 @@ func (w *c02World) forceFullSync() {
 	n := w.readNode()
 	n.Status.NextSyncOpenAPITime = metav1.NewTime(time.Unix(1000, 0))
 	w.must(w.base.Status().Update(w.ctx, n))
-}
-
-func (w *c02World) c08NilMapHit(kind string) bool {
-	parts := strings.Split(kind, ":")
-	if len(parts) != 3 {
-		return false
-	}
-	return w.nilMapHit[parts[1]+"/"+strings.TrimPrefix(parts[2], "IPv")]
-}
-
-// c08NilFamily: the record the pass started from has no address of that family on the
-// interface named in the monitor kind ("assign:<eni>:<family>").
-func c08NilFamily(n *networkv1beta1.Node, kind string) bool {
-	parts := strings.Split(kind, ":")
-	if len(parts) != 3 {
-		return false
-	}
-	e := n.Status.NetworkInterfaces[parts[1]]
-	if e == nil {
-		return false
-	}
-	if parts[2] == "IPv6" {
-		return len(e.IPv6) == 0
-	}
-	return len(e.IPv4) == 0
 }
 
 func c08AnyEmptyKey(n *networkv1beta1.Node) bool {
@@ -1137,10 +1048,6 @@ func (w *c02World) c08CheckRollback(f *c08Final) string {
 			cs := map[string]bool{}
 			for _, a := range pair.cloud {
 				cs[a] = true
-				if pair.rec[a] == nil && (len(pair.rec) == 0 || w.nilMapHit[fmt.Sprintf("%s/%d", id, 4+2*fam)]) && c08Known("C08-sync-merge-nil-map") {
-					w.c.Label("known:C08-sync-merge-nil-map")
-					continue
-				}
 				if pair.rec[a] == nil {
 					return fmt.Sprintf("interface %s: address %s (family %d) is assigned in the cloud but missing from the record", id, a, 4+2*fam)
 				}
@@ -1214,33 +1121,6 @@ func (w *c02World) c08DualImbalance(f *c08Final) bool {
 		}
 	}
 	return false
-}
-
-// c08WhollyIdlePrimaries counts idle primaries of secondary/standard interfaces in use on
-// which nothing is bound (interfaces the controller could release as a whole).
-func c08WhollyIdlePrimaries(n *networkv1beta1.Node, v4 bool) int {
-	cnt := 0
-	for _, e := range n.Status.NetworkInterfaces {
-		if e.Status != aliyunClient.ENIStatusInUse || e.NetworkInterfaceType != networkv1beta1.ENITypeSecondary ||
-			e.NetworkInterfaceTrafficMode != networkv1beta1.NetworkInterfaceTrafficModeStandard {
-			continue
-		}
-		_, u4 := IPUsage(e.IPv4)
-		_, u6 := IPUsage(e.IPv6)
-		if u4+u6 > 0 {
-			continue
-		}
-		m := e.IPv4
-		if !v4 {
-			m = e.IPv6
-		}
-		for _, ip := range m {
-			if ip.Status == networkv1beta1.IPStatusValid && (ip.Primary || !v4) {
-				cnt++
-			}
-		}
-	}
-	return cnt
 }
 
 // c08Room reports whether, by cloud ground truth and the declared limits, the node could
@@ -1405,9 +1285,7 @@ func (w *c02World) c08CheckConverged(f *c08Final) string {
 		}
 		w.c.Label("conv:min-capacity-exhausted")
 	}
-	if idle-pinned > n.Max && c08Known("C08-idle-eni-kept") && c08WhollyIdlePrimaries(f.node, n.V4) >= idle-pinned-n.Max {
-		w.c.Label("known:C08-idle-eni-kept")
-	} else if idle-pinned > n.Max {
+	if idle-pinned > n.Max {
 		return fmt.Sprintf("fixed point reached with %d idle addresses (%d of them primaries of interfaces that must stay), above the pool maximum %d", idle, pinned, n.Max)
 	}
 	if pinned > 0 && idle > n.Max {
@@ -1569,21 +1447,7 @@ func (w *c02World) c08OscillationClass(f *c08Final) string {
 			rdmaIdle = true
 		}
 	}
-	perKind := map[string]int{}
-	for _, e := range f.node.Status.NetworkInterfaces {
-		perKind[string(e.NetworkInterfaceType)+"/"+string(e.NetworkInterfaceTrafficMode)]++
-	}
-	surplus := false
-	for _, fl := range w.spec.Flavor {
-		if perKind[string(fl.NetworkInterfaceType)+"/"+string(fl.NetworkInterfaceTrafficMode)] > fl.Count {
-			surplus = true
-		}
-	}
 	switch {
-	case surplus && c08Known("C08-negative-slot-count"):
-		return "C08-negative-slot-count"
-	case len(w.nilMapHit) > 0 && c08Known("C08-sync-merge-nil-map"):
-		return "C08-sync-merge-nil-map"
 	case w.overDemand > 0 && onlyAddresses && c08Known("C08-greedy-demand-oscillation"):
 		return "C08-greedy-demand-oscillation"
 	case n.ERDMA && rdmaIdle && c08Known("C08-rdma-idle-oscillation"):
